@@ -37,6 +37,22 @@ CLAIMS["C12"] = (
     "ureq/HTTP timeouts — time and the OS cannot be encoded for the solver.",
     "DESIGN.md §4 C12")
 
+CLAIMS["C10"] = (
+    "Solver verdict that retry_on_timeout makes exactly min(first non-timeout attempt, r+1) attempts and returns the "
+    "first non-timeout outcome (or the last timeout) for every outcome vector and r in 0..=3 and the two largest r; and "
+    "that every retrying protocol entry point sends exactly r+1 identical requests to a silent server, retries a timed-out "
+    "send, and never retries a malformed reply. Fault vectors are the symbolic input: exactly the quantifier of the property.",
+    "Trusted: hooks H1-H3 (net model: silence = receive timeout, injectable send faults). Outside: outcome vectors with a "
+    "valid reply at protocol level, r > 2 at protocol level.",
+    "DESIGN.md §4 C10")
+CLAIMS["C18"] = (
+    "Solver verdict that TimeoutSettings::new rejects exactly the zero durations (all Durations, all retry counts), and "
+    "that socket set-up, the retry helper and every listed query entry point never panic for any field values the "
+    "derived Deserialize/clap code can produce (zero, 1 ns, u64::MAX s, usize::MAX retries).",
+    "Trusted: hooks H3/H5. NOT claimed: the Deserialize / clap construction paths themselves (derive macros and clap's "
+    "parser are not encoded) - they accept zero durations, recorded as open known finding K1.",
+    "DESIGN.md §4 C18")
+
 ALL = ["C%02d" % i for i in range(1, 21)]
 
 DEFAULT_NA = "check not built yet in this revision (work in progress; see DESIGN.md for the plan)"
